@@ -247,6 +247,8 @@ def main():
         elif pr["kind"] == "correspondence":
             # the differing case itself is a concrete input on which model and code disagree; it is
             # not (yet) a property failure
+            violation.update({"case": pr.get("case"), "correspondence_ops": pr.get("ops"),
+                              "model_line": pr.get("model"), "impl_line": pr.get("impl")})
             tail = " no-failing-input-found"
         else:
             tail = " no-failing-input-found"
